@@ -720,8 +720,83 @@ fn production_case(ch: &mut Choices<'_>, st: &mut Stats) -> CaseResult {
     check_needle(&needle, None, form, 8, &hays, false, st)
 }
 
+/// Long needles around internal size thresholds (64, 128, 256, 512 ...) with a
+/// rare byte far into the pattern, on haystacks where the occurrence sits at
+/// the very start / end or is missed by one byte.
+fn long_case(ch: &mut Choices<'_>, st: &mut Stats) -> CaseResult {
+    let len = match ch.weighted(&[5, 2]) {
+        0 => *ch.pick(&[41usize, 48, 63, 64, 65, 100, 127, 128, 129, 200, 254, 255, 256, 257, 258, 300, 400, 511, 512, 513, 600, 1000]),
+        _ => 41 + ch.draw(700),
+    };
+    let alpha = *ch.pick(&[1usize, 2, 3, 26]);
+    let mut needle: Vec<u8> = (0..len).map(|_| b'a' + ch.draw(alpha) as u8).collect();
+    // one or two rare bytes at chosen depths
+    let spots = [0usize, 1, len / 2, len.saturating_sub(40), len - 2, len - 1, 255.min(len - 1), 256.min(len - 1), 280.min(len - 1)];
+    let nrare = ch.range(1, 2);
+    let mut rare_at = Vec::new();
+    for _ in 0..nrare {
+        let i = *ch.pick(&spots);
+        needle[i] = *ch.pick(&[b'Q', b'Z', 0xff, 0x00, b'#']);
+        rare_at.push(i);
+    }
+    let anchor = Some(1 + ch.draw(len - 1));
+    let form = ch.draw(3) as u8;
+    let noise = |ch: &mut Choices<'_>, n: usize| -> Vec<u8> { (0..n).map(|_| b'a' + ch.draw(alpha.max(2)) as u8).collect() };
+    let mut hays: Vec<Hay> = Vec::new();
+    hays.push(hay(needle.clone(), "exact"));
+    for pre in [1usize, 15, 16, 31, 255, 256, 300] {
+        let mut h = noise(ch, pre);
+        h.extend_from_slice(&needle);
+        hays.push(hay(h, "at-end"));
+    }
+    for suf in [1usize, 17, 256] {
+        let mut h = needle.clone();
+        h.extend(noise(ch, suf));
+        hays.push(hay(h, "at-start"));
+    }
+    {
+        let mut h = noise(ch, 40);
+        h.extend_from_slice(&needle);
+        h.extend(noise(ch, 40));
+        hays.push(hay(h, "inside"));
+    }
+    // near misses: a rare byte / the first / the last byte changed, one byte missing
+    for &i in rare_at.iter().chain([0usize, len - 1].iter()) {
+        let mut h = noise(ch, 20);
+        let mut n2 = needle.clone();
+        n2[i] = if n2[i] == b'a' { b'b' } else { b'a' };
+        h.extend_from_slice(&n2);
+        h.extend(noise(ch, 20));
+        hays.push(hay(h, "near-miss"));
+    }
+    {
+        let mut h = noise(ch, 10);
+        h.extend_from_slice(&needle[..len - 1]);
+        hays.push(hay(h, "cut-off"));
+        let mut h2 = needle[1..].to_vec();
+        h2.extend(noise(ch, 10));
+        hays.push(hay(h2, "first-byte-missing"));
+    }
+    // near miss followed by a real occurrence
+    {
+        let mut n2 = needle.clone();
+        n2[rare_at[0]] = b'a';
+        let mut h = n2;
+        h.extend_from_slice(&needle);
+        hays.push(hay(h, "near-miss-then-hit"));
+    }
+    st.class(match len {
+        0..=64 => "long-needle-41..64",
+        65..=255 => "long-needle-65..255",
+        256..=512 => "long-needle-256..512",
+        _ => "long-needle-513+",
+    });
+    check_needle(&needle, anchor, form, 1, &hays, false, st)
+}
+
 fn base_fn(base: &str) -> Option<fn(&mut Choices<'_>, &mut Stats) -> CaseResult> {
     match base {
+        "long" => Some(long_case),
         "grid" => Some(grid_case),
         "random" => Some(random_case),
         "production" => Some(production_case),
@@ -792,6 +867,8 @@ pub fn subs() -> Vec<Sub> {
         Sub { name: "grid-scalar", f: Box::new(|ch, st| in_mode(false, "grid", ch, st)) },
         Sub { name: "random-simd", f: Box::new(|ch, st| in_mode(true, "random", ch, st)) },
         Sub { name: "random-scalar", f: Box::new(|ch, st| in_mode(false, "random", ch, st)) },
+        Sub { name: "long-simd", f: Box::new(|ch, st| in_mode(true, "long", ch, st)) },
+        Sub { name: "long-scalar", f: Box::new(|ch, st| in_mode(false, "long", ch, st)) },
         Sub { name: "production-simd", f: Box::new(|ch, st| in_mode(true, "production", ch, st)) },
         Sub { name: "production-scalar", f: Box::new(|ch, st| in_mode(false, "production", ch, st)) },
     ]
@@ -809,6 +886,8 @@ fn workload(run: &Run, suffix: &str) {
     run.random(&format!("random-{suffix}"), n, 700, &random_case);
     let n = run.tier.pick(5_000, 40_000);
     run.random(&format!("production-{suffix}"), n, 700, &production_case);
+    let n = run.tier.pick(4_000, 60_000);
+    run.random(&format!("long-{suffix}"), n, 2400, &long_case);
 }
 
 /// Helper-process entry (`wfcheck --child c10 <args>`; `args` start after "c10"):
@@ -972,7 +1051,7 @@ pub fn run(run: &Run) {
          grid = needle length 0..=40 x every anchor 1..len-1 (hook override) x 6 needle kinds (distinct bytes, Thue-Morse binary, unary, first=anchor=last byte, bytes needing escapes/non-UTF-8, ternary) x batches of ~1000 haystacks (quick: every length x anchor with one rotating kind, all kinds for lengths {0,1,2,3,8,15,16,17,32,40}; thorough: all kinds everywhere, all 6 batches for those lengths) built by construction \
          (filler only; needle at offsets 0,1,middle,end-1,end for every extra length 0..=40 and around 48/64/96/128/256/300 - i.e. straddling every 16/32-byte block end; near-misses in the first/last/anchor/inner byte; every proper prefix/suffix of the needle; occurrence cut off by the end; near-miss then occurrence; overlapping copies; planted first+anchor-byte decoys; 2-3 symbol noise); \
          random = drawn needles (1-4 symbol alphabets or arbitrary bytes) with drawn anchor x 12 drawn haystacks of length 0..=300 each, plus the same needle under any(a[*] contains ..); \
-         production = no override, the same filter compiled 8 times, all must agree; \
+         production = no override, the same filter compiled 8 times, all must agree; long = needles of 41..1000 bytes around internal size thresholds (63..65, 127..129, 254..258, 511..513) with a rare byte at a chosen depth (start, middle, >= 256, end), haystacks with the occurrence at the very start / end / inside, near-misses in the rare / first / last byte, cut-off copies; \
          non-trivial = haystack >= needle and (some position matches the needle's first and anchor bytes but not the whole needle | an occurrence crosses a 16-byte block boundary); distinct by (mode, needle, anchor, haystack)",
     );
     run.assume("the hook verif::set_contains_anchor only replaces the randomly drawn anchor position (one shadowing line) and verif::simd_contains_active reports the latched USE_AVX2");
